@@ -168,6 +168,14 @@ ASMJIT_FAVOR_SIZE Error FuncFrame::finalize() noexcept {
   bool has_fp = has_preserved_fp();
   bool has_da = has_dynamic_alignment();
 
+  // AArch64 prolog/epilog can neither realign the stack pointer (there is no scratch register to do it) nor save more
+  // than the low 64 bits of vector registers - refuse such frames instead of emitting code that breaks their promises.
+  if (Environment::is_family_aarch64(arch())) {
+    if (has_da || (save_restore_reg_size(RegGroup::kVec) > 8u && saved_regs(RegGroup::kVec) != 0u)) {
+      return make_error(Error::kInvalidState);
+    }
+  }
+
   uint32_t kSp = arch_traits.sp_reg_id();
   uint32_t kFp = arch_traits.fp_reg_id();
   uint32_t kLr = arch_traits.link_reg_id();
